@@ -92,6 +92,8 @@ def fl(x):
 
 def run(ctx):
     rng = ctx.rng
+    from props import cli_proc
+    cli_proc.stream(ctx, ['C03-whole-smallsize', 'C01-whole-smallsize', 'C03-header-smallsize'])
     N = 1200 if ctx.tier == 'quick' else 3000
     cfgs = [(255, 100, (0.3, 0.2, 0.1), 32), (16, 1, (0.5, 0.5, 0.5), 8), (40, 333, (0.1, 0.25, 0.7), 4),
             (7, 50, (1.0, 0.05, 1.0), 0), (3, 10, (0.3, 0.3, 0.05), 8), (2, 1000, (0.25, 0.9, 0.15), 32)]
@@ -314,6 +316,9 @@ def real_track(ctx, rng, n):
 
 def replay_case(ctx, case):
     import common
+    if case.get('kind') == 'cli-process':
+        from props import cli_proc
+        return cli_proc.replay(case)
     if case['kind'] == 'msize':
         from pyFileFixity.lib.eccman import compute_ecc_params
         r = float.fromhex(case['rate'])
